@@ -305,3 +305,63 @@ func ruleC14_4(c *Ctx) {
 		}
 	}
 }
+
+// R-C14-5: no blocking stream read / wait while a mutex is held (two readers that take the same lock before
+// draining are serialised: the deadlock of R-C14-1 in disguise).
+func init() {
+	if p := registry["C14"]; p != nil {
+		p.Rules = append(p.Rules, Rule{ID: "R-C14-5", Doc: "no blocking read / wait while a mutex is held", Min: 1, Run: ruleC14_5})
+		p.Explanation += " (R-C14-5) no blocking drain (io.ReadAll / io.Copy / Read / Wait) is executed while a sync.Mutex or RWMutex is held: readers of the two pipes that lock one mutex before reading are serialised and deadlock exactly like a sequential drain."
+	}
+}
+
+func ruleC14_5(c *Ctx) {
+	const R = "R-C14-5"
+	nLocks := 0
+	for _, f := range c.srcFuncs("in_toto") {
+		var locks []ssa.CallInstruction
+		for _, k := range allCalls(f) {
+			n := calleeName(k)
+			if n == "(*sync.Mutex).Lock" || n == "(*sync.RWMutex).Lock" || n == "(*sync.RWMutex).RLock" {
+				if _, isDefer := k.(*ssa.Defer); !isDefer {
+					locks = append(locks, k)
+				}
+			}
+		}
+		for _, l := range locks {
+			nLocks++
+			mu := org(l.Common().Args[0])
+			deferred := false
+			var unlocks []ssa.CallInstruction
+			for _, k := range allCalls(f) {
+				n := calleeName(k)
+				if (strings.HasSuffix(n, ".Unlock") || strings.HasSuffix(n, ".RUnlock")) && strings.HasPrefix(n, "(*sync.") && org(k.Common().Args[0]) == mu {
+					if _, isDefer := k.(*ssa.Defer); isDefer {
+						deferred = true
+					} else {
+						unlocks = append(unlocks, k)
+					}
+				}
+			}
+			for _, k := range allCalls(f) {
+				n := calleeName(k)
+				blocking := n == "io.ReadAll" || n == "io/ioutil.ReadAll" || n == "io.Copy" || n == "io.CopyBuffer" || strings.HasSuffix(n, ".Read") && strings.HasPrefix(n, "iface:io.") ||
+					n == "(*os/exec.Cmd).Wait" || n == "(*os/exec.Cmd).Run" || n == "(*bytes.Buffer).ReadFrom" || n == "(*bufio.Scanner).Scan"
+				if !blocking || !instrDominates(l, k) {
+					continue
+				}
+				released := false
+				if !deferred {
+					for _, u := range unlocks {
+						if instrDominates(l, u) && instrDominates(u, k) {
+							released = true
+						}
+					}
+				}
+				c.check(released, R, fname(f), "blocking "+n+" after "+calleeName(l), k.Pos(), "the lock is released before the blocking call",
+					"a blocking stream read / wait runs while "+mu+" is held: concurrent readers that take the same lock are serialised; a child that fills the other pipe's buffer blocks forever")
+			}
+		}
+	}
+	c.ok(R, "in_toto", "lock regions scanned for blocking reads", 0, fmt.Sprintf("%d lock acquisitions in package in_toto", nLocks))
+}
